@@ -133,16 +133,25 @@ static inline Table gen_nested_table(const SchemaOpts& o, int max_rgs) {
 }
 
 // split a chunk's entries into pages at record boundaries (rep == 0)
+static inline void maybe_empty_page(std::vector<size_t>& out) {
+    // a data page with num_values = 0 is legal (nothing in the format sets a minimum): first, in the middle or last
+    if (draw(8) != 7) return;
+    size_t at = draw((uint32_t)out.size() + 1);
+    out.insert(out.begin() + (long)at, 0);
+}
+
 static inline std::vector<size_t> gen_page_split(const Chunk& ch, bool simple) {
     std::vector<size_t> out; size_t n = ch.def.size();
     if (n == 0) return out;           // no data page for an empty chunk
-    if (simple || draw(3) == 0) { out.push_back(n); return out; }
+    if (simple) { out.push_back(n); return out; }
+    if (draw(3) == 0) { out.push_back(n); maybe_empty_page(out); return out; }
     size_t target = 1 + draw(4) * draw(40) + draw(9);
     size_t start = 0;
     for (size_t i = 1; i <= n; i++) {
         if (i == n) { out.push_back(i - start); break; }
         if (ch.rep[i] == 0 && i - start >= target) { out.push_back(i - start); start = i; if (draw(4) == 0) target = 1 + draw(60); }
     }
+    maybe_empty_page(out);
     return out;
 }
 
